@@ -52,6 +52,7 @@ import (
 	"strconv"
 	"strings"
 	"sync"
+	"sync/atomic"
 	"time"
 	"unicode/utf8"
 
@@ -677,6 +678,8 @@ func encodeString(s string, style int) string {
 	return b.String()
 }
 
+var intSpellings atomic.Int64
+
 func encodeValue(v interface{}, rnd *rand.Rand) string {
 	switch x := v.(type) {
 	case bool:
@@ -688,6 +691,21 @@ func encodeValue(v interface{}, rnd *rand.Rand) string {
 		}
 		return strconv.FormatBool(x)
 	case int:
+		// a controller may spell the same integer with a fraction or an exponent (printf("%g") style encoders do):
+		// 1e+02, 3.7E1, 100.0.  JSON has one number type; only spellings float64 holds exactly are used.
+		if x > -(1<<53) && x < 1<<53 {
+			switch rnd.Intn(8) {
+			case 0:
+				intSpellings.Add(1)
+				return strconv.FormatFloat(float64(x), 'e', -1, 64)
+			case 1:
+				intSpellings.Add(1)
+				return strings.ToUpper(strings.Replace(strconv.FormatFloat(float64(x), 'e', -1, 64), "e+0", "e", 1))
+			case 2:
+				intSpellings.Add(1)
+				return strconv.Itoa(x) + ".0"
+			}
+		}
 		return strconv.Itoa(x)
 	case float64:
 		s := strconv.FormatFloat(x, 'g', -1, 64)
@@ -1993,6 +2011,8 @@ func main() {
 	r.Floor("callbacks_checked", int(r.Counter("callbacks_checked")), 300)
 	r.Floor("put_entries_for_non_existing_ids", int(r.Counter("put_entries_for_non_existing_ids")), 3)
 	r.Floor("formats", len(formatsSeen()), 7)
+	r.Count("integer_writes_spelled_with_exponent_or_fraction", int(intSpellings.Load()))
+	r.Floor("integer_writes_spelled_with_exponent_or_fraction", int(intSpellings.Load()), 50)
 	_ = utf8.RuneError
 	r.Finish()
 }
